@@ -67,10 +67,26 @@ def units(ctx, R):
     R.check(key(r) in ("[scale.milli2dt(elem(LINDOM)) for elem(LINDOM) in LINDOM]",), "C15.UNITS", h.qual + "()", where(h), "domain() reports milli2dt of every inner end point", "domain() returns %s" % show(r))
 
 
-def _epoch_ok(P, mod, R, rule_id):
-    ev = new_eval(P)
-    names = [n for n in ("EPOCH",) if mod.global_assigns(n)]
-    return names
+@rule("C15.EPOCH")
+def epoch_rule(ctx, R):
+    """'Milliseconds since the epoch': the instant the conversions are anchored at is 1970-01-01 00:00 (naive), the same one
+    in both directions, in every module that defines such conversions."""
+    P = ctx.P
+    n = 0
+    for mn, m in sorted(P.modules.items()):
+        # module-level datetime constants used by a to-milliseconds / from-milliseconds conversion of that module
+        for a in m.tree.body:
+            if not (isinstance(a, ast.Assign) and len(a.targets) == 1 and isinstance(a.targets[0], ast.Name) and isinstance(a.value, ast.Call) and ntext(a.value.func).split(".")[-1] == "datetime"):
+                continue
+            name = a.targets[0].id
+            users = [f for f in P.funcs.values() if f.module is m and any(isinstance(x, ast.Name) and x.id == name for x in ast.walk(f.node)) and any(isinstance(x, ast.Attribute) and x.attr in ("total_seconds",) or isinstance(x, ast.Call) and ntext(x.func).split(".")[-1] == "timedelta" for x in ast.walk(f.node))]
+            if not users:
+                continue
+            n += 1
+            ev = new_eval(P)
+            v = ev.resolve_global(mn, name)
+            R.check(key(v) == "datetime.datetime(1970, 1, 1)", "C15.EPOCH", "%s.%s" % (mn, name), mwhere(m, a), "the conversions count from 1970-01-01 00:00", "%s.%s is %s: 'milliseconds since the epoch' are counted from another instant (the two directions, the calendar floors and a linear scale on epoch milliseconds no longer agree)" % (mn, name, show(v)))
+    R.check(n >= 1, "C15.EPOCH.inventory", "epoch constants examined: %d" % n, "", "", "no epoch constant found next to the millisecond conversions", nontrivial=False)
 
 
 @rule("C15.INVERSE")
@@ -161,4 +177,4 @@ def state_rule(ctx, R):
 
 
 # TimeScale.copy copies the inner linear scale with LinearScale.copy: a copy that maps differently (or shares a list) breaks the time scale too
-RULES = [units, inverse, delegate, affine, endpoint_exact, rescale_rule, domain_fresh, copy_fresh, shared_list, reports, tzapi_time, state_rule]
+RULES = [units, epoch_rule, inverse, delegate, affine, endpoint_exact, rescale_rule, domain_fresh, copy_fresh, shared_list, reports, tzapi_time, state_rule]
